@@ -1028,6 +1028,8 @@ func solveByComponents(ss *SolverSet, asserts []*Term, allVars []*Term, to int, 
 }
 
 var sampleStrings = []string{"a", "b", "c", "d", "x", "y", "p", "q", "", "\n", "a\nb", "\"", "`", "\\", "a/d", "b/d", "c/d", "/d", "/go", " ", "1", "a1", "a\r\nb", "math/rand/v2", "//", "/*", "*/", "\xff", "\x00"}
+var identStrings = []string{"a", "b", "c", "d", "x", "y", "p", "q", "a1", "k", "v", "m"}
+
 var sampleInts = func() []string {
 	out := []string{"0", "1", "2", "3", "255", "-1", "65", "128", "1000000"}
 	for _, f := range []float64{1, -1, 1.5, -0.5, 100, 1e6, -1e6, -2.5e6, 1e20, -1e20, 1e21, 1e-7, -1e-7, 123456789, -123456789} {
@@ -1118,7 +1120,12 @@ func sampleModel(base []*Term, shadow []*Term, wdefs map[*Term]*Term, nts []*Ter
 		for i, t := range nts {
 			switch t.Sort {
 			case SStr:
-				vals[i] = "s:" + sampleStrings[next(len(sampleStrings))]
+				if try < tries/4 {
+					// first quarter: identifier-like texts only (they scan and parse as Go)
+					vals[i] = "s:" + identStrings[next(len(identStrings))]
+				} else {
+					vals[i] = "s:" + sampleStrings[next(len(sampleStrings))]
+				}
 			case SBool:
 				vals[i] = fmtBool(next(2) == 1)
 			default:
